@@ -92,7 +92,7 @@ def run(chk):
                                            observed=np.asarray(Aii.to_dense()).tolist()))
                 if kind in ("Lower", "Upper"):
                     import jax.numpy as jnp
-                    for tail in [(), (2,), (2, 2)]:
+                    for tail in [(), (2,), (2, 2), (2, 3), (1, 2, 2)]:
                         y = rng.normal(size=(n,) + tail)
                         x = np.asarray(A.solve(jnp.asarray(y)))
                         y2 = y.reshape(n, -1)
@@ -102,8 +102,10 @@ def run(chk):
                         expect.append((dict(op="solve", a=gen.spec_json(s), y=y.tolist()), [2], x.ravel()))
                         hist["solve:" + kind] = hist.get("solve:" + kind, 0) + 1
                         want = np.linalg.solve(D, y2).reshape(y.shape)
-                        okx, _ = close(x, want, 1e-8)
-                        if not okx or x.shape != y.shape:
+                        okx = x.shape == y.shape
+                        if okx:
+                            okx, _ = close(x, want, 1e-8)
+                        if not okx:
                             oracle_bad.append(dict(op="solve", a=gen.spec_json(s), y=y.tolist(), expected=want.tolist(),
                                                    observed=x.tolist()))
     model = coq_eval("c06", IMPORTS, exprs, shard=40)
@@ -117,7 +119,7 @@ def run(chk):
     chk.cov["evaluations"] = len(exprs)
     chk.cov["distinct_nontrivial"] = len(distinct)
     chk.cov["rule"] = ("strictly diagonally dominant Lower/Upper/Square/Symm matrices with unequal orders, dense non-symmetric "
-                       "transition blocks, sizes incl. 1 and 2; inverse, inverse of inverse, solves with rank-1/2/3 right-hand sides; "
+                       "transition blocks, sizes incl. 1 and 2; inverse, inverse of inverse, solves with rank-1/2/3/4 right-hand sides (square and non-square trailing shapes); "
                        "distinct = different (kind, n, dense bytes)")
     chk.cov["input_histogram"] = hist
     chk.cov["condition_numbers"] = {"max": max(conds), "median": float(np.median(conds))}
